@@ -391,10 +391,18 @@ class Report:
             trip = [t for t in _triples4(p.result) if isinstance(t[1], R) and not t[1].is_const and not t[3].get("nocross")]
             if not trip:
                 continue
-            env = find_witness(R.const(0), R.const(1), list(pre) + list(p.pc), tries=400, seed=zlib.crc32(name.encode()))
+            # a well-conditioned point: the comparison is about Python semantics, not about how many
+            # digits either float evaluation loses at extreme arguments
+            env = None
+            for k_ in range(6):
+                cand = find_witness(R.const(0), R.const(1), list(pre) + list(p.pc), tries=400, seed=zlib.crc32(name.encode()) + k_)
+                if cand:
+                    cand.pop("_lhs", None), cand.pop("_rhs", None)
+                    if all(1e-3 <= abs(v) <= 1e3 for v in cand.values() if isinstance(v, (int, float))):
+                        env = cand
+                        break
             if not env:
                 continue
-            env.pop("_lhs", None), env.pop("_rhs", None)
             try:
                 native = {t[0]: t[1] for t in _triples4(case(sy.numeric(env)))}
             except Exception:  # noqa
@@ -410,7 +418,7 @@ class Report:
                 self.crosschecks += 1
                 # a case may declare that its native side is computed differently (e.g. a numerical
                 # derivative): its own replay tolerance then bounds the comparison
-                cc_tol = max(1e-7, 10 * _o.get("replay_tol", 0))
+                cc_tol = max(1e-6, 10 * _o.get("replay_tol", 0))
                 if not (abs(a - b) <= cc_tol * max(1.0, abs(a), abs(b)) or (a != a and b != b)):
                     self.crosscheck_mismatches += 1
                     self.add(Ob(f"{name}/selfcheck/cpython-crosscheck/{sub}", "selfcheck", ERROR, "eval", 0, f"symbolic result evaluates to {a!r}, native run gives {b!r} at {dict(list(env.items())[:6])}"))
